@@ -168,8 +168,15 @@ def oracle(ctx, inp, out):
             # committed just before: the culprit is the newly committed file that has that extension
             culprits = set()
             if res["e"] == "ext":
-                culprits = {c for c in new_files
-                            if any(x["extendee"] == res["msg"] and x["tag"] == res["tag"] for x in out["walks"][str(c)]["exts"])}
+                owner_now = None
+                for n in st["dump"]:
+                    for x in n["exts"]:
+                        if x["msg"] == res["msg"] and x["tag"] == res["tag"]:
+                            owner_now = x["owner"]
+                for c in new_files:
+                    k = sum(1 for x in out["walks"][str(c)]["exts"] if x["extendee"] == res["msg"] and x["tag"] == res["tag"])
+                    if (k >= 1 and owner_now != c) or k >= 2:
+                        culprits.add(c)
             elif res["e"] in ("extpkg", "nopkg"):
                 culprits = set(new_files)
             replay = {"files": inp["files"], "ops": inp["ops"][: k + 1], "failed_step": k, "result": res}
